@@ -4,12 +4,15 @@ from __future__ import annotations
 import copy
 
 
-def shrink(plan, run, signature, candidates, budget=600):
+def shrink(plan, run, signature, candidates, budget=600, wall_s=150.0):
     """
     plan        JSON plan
     run(plan)   -> result dict with 'violation' (None or {'signature':..})
     candidates  fn(plan, last_result) -> iterable of smaller plans (most aggressive first)
+    budget      candidate executions; wall_s: wall-clock bound (minimisation is a courtesy, the verdict does not wait for it)
     """
+    import time
+    deadline = time.monotonic() + wall_s
     best = plan
     best_res = run(best)
     if not (best_res['violation'] and best_res['violation']['signature'] == signature):
@@ -20,7 +23,8 @@ def shrink(plan, run, signature, candidates, budget=600):
         improved = False
         for cand in candidates(best, best_res):
             budget -= 1
-            if budget <= 0:
+            if budget <= 0 or time.monotonic() > deadline:
+                budget = 0
                 break
             try:
                 r = run(cand)
